@@ -283,6 +283,22 @@ pub fn run(ctx: &Ctx, st: &mut Stats, round: bool) {
             }
         }
     });
+    // ---- pool dates x bit-structured times of day
+    let bts = bit_times();
+    let dpool = date_pool();
+    let (bts_ref, dpool_ref) = (&bts, &dpool);
+    let bstep = ctx.tier.pick(997, 3, 1);
+    ctx.par(st, "pool dates x bit-structured times x 12 units", true, 0, (dpool.len() * bts.len()) as i64 / bstep, |st, i, _| {
+        let i = i * bstep;
+        let n = dpool_ref[(i as usize) / bts_ref.len()] as i64;
+        let t = bts_ref[(i as usize) % bts_ref.len()];
+        for u in UNITS {
+            st.eval(&one(round, u, TyK::Ts, n, t), check);
+            if t % 1_000_000 == 0 {
+                st.eval(&one(round, u, TyK::Ora, n, t), check);
+            }
+        }
+    });
     // ---- seeded random timestamps
     let nr = ctx.tier.pick(500, 1_000_000, 20_000_000);
     ctx.par(st, "random/timestamps x 12 units", false, 0, nr, |st, _, rng| {
